@@ -193,6 +193,7 @@ REPLAY_SITES = {
     'wire': ('crates/anemo', 'anemo', 'src/network/wire.rs', 'wire_native.rs', 'network::wire'),
     'cm': ('crates/anemo', 'anemo', 'src/network/connection_manager.rs', 'cm_native.rs', 'network::connection_manager'),
     'auth': ('crates/anemo-tower', 'anemo-tower', 'src/auth/mod.rs', 'auth_native.rs', 'auth'),
+    'timeout': ('crates/anemo', 'anemo', 'src/middleware/timeout/mod.rs', 'timeout_native.rs', 'middleware::timeout'),
 }
 
 
